@@ -191,6 +191,30 @@ pub fn drive_lerp(seed: u64, full8: bool, out: &str) -> Value {
         } }
     } }
     wide_edge!(i32, "i32"); wide_edge!(u32, "u32"); wide_edge!(i64, "i64"); wide_edge!(u64, "u64"); wide_edge!(usize, "usize");
+    // lerp(a, a, x) = a at positions whose complement 1 - x is NOT an f32 number and at every magnitude up to the
+    // type limits (x logged as the exact rational n / 2^30 of the f32)
+    let xs_aa: Vec<f32> = vec![0.252, 0.058, 1.0 / 3.0, 0.7, 0.9900865, 0.014638841, 0.1, 8.940697e-8, 0.5000001];
+    let xs_aa_q: Vec<i64> = xs_aa.iter().map(|&x| (x as f64 * 1073741824.0).round() as i64).collect();
+    let mut aas: Vec<i64> = vec![0, 1, -1, 3, 255, -32768, 65535, 1 << 20, (1 << 22) - 1, (1 << 22) + 1, (1 << 23) - 1, 8388609, 8541079, 16777215, -16777215, -8388607,
+                                 1 << 24, (1 << 24) + 2, 100_000_000, 1 << 30, -(1 << 31), 2147483520];
+    for _ in 0..(if full8 { 400 } else { 60 }) { aas.push(rng.below(1 << 22) as i64 - (1 << 21)); aas.push((1 << 22) + rng.below((1 << 24) - (1 << 22)) as i64); }
+    for &a in &aas {
+        if a as f32 as i64 != a { continue; }            // (the law is about values that are f32 numbers)
+        let fits = |lo: i64, hi: i64| a >= lo && a <= hi;
+        let mut rec = |ty: &str, r: Option<Vec<i64>>, f: &mut std::io::BufWriter<std::fs::File>| {
+            put(match r { Some(r) => json!({"ev": "lerpaa", "ty": ty, "a": a, "xq": xs_aa_q, "r": r}), None => json!({"ev": "lerpaa", "ty": ty, "a": a, "panic": 1}) }, f);
+        };
+        macro_rules! aa { ($t:ty, $name:expr) => {{
+            let v = a as $t;
+            let r: Option<Vec<i64>> = xs_aa.iter().map(|&x| catch_unwind(AssertUnwindSafe(|| v.lerp(&v, x))).ok().map(|r| r as i64)).collect();
+            rec($name, r, &mut f); recs += 1; evals += xs_aa.len() as u64;
+        }} }
+        if fits(-32768, 32767) { aa!(i16, "i16"); }
+        if fits(0, 65535) { aa!(u16, "u16"); }
+        if fits(-(1 << 31), (1 << 31) - 1) { aa!(i32, "i32"); }
+        if fits(0, (1 << 32) - 1) { aa!(u32, "u32"); aa!(u64, "u64"); aa!(usize, "usize"); }
+        aa!(i64, "i64");
+    }
     // float types on small integers and dyadic x: exact
     for _ in 0..(if full8 { 4000 } else { 400 }) {
         let (mut a, mut b) = (rng.below(8192) as i64 - 4096, rng.below(8192) as i64 - 4096);
